@@ -98,7 +98,10 @@ def _run(case):
 
     torch._OBSERVER, torch._YIELD = None, None
     kw = {"inference_procedure": "predict"} if case.get("named_proc") else {}
-    tm = tmod.TorchTrainingModel(Net(), has_inference_model=True, inference_thread_only=False, **kw)
+    net = Net()
+    if case.get("frozen"):
+        net.requires_grad_(False)
+    tm = tmod.TorchTrainingModel(net, has_inference_model=True, inference_thread_only=False, **kw)
     im = tm.inference_model
     im._lock.name = "L"
     ids = {"train0": tm.model.mid, "inf0": im._raw_model.mid}
